@@ -8,6 +8,7 @@ from cxx2c import Unsupported
 import residuals
 import scaling
 import newton
+import compose
 
 # (n variables, p equalities, m inequalities): quick tier = no equalities, no inequalities, a mixed one and the largest one
 QUICK_SHAPES = [(1, 0, 1), (2, 1, 2), (3, 2, 2), (2, 1, 0)]
@@ -43,6 +44,7 @@ def build(tier):
         jobs.append(guarded(lambda a=(n, p, m): residuals.residual_vcs(*a, info), f'solver_state_t::residual {(n, p, m)}'))
     jobs += [guarded(j, what) for j, what in scaling.jobs(tier, shapes, info)]
     jobs += [guarded(j, what) for j, what in newton.jobs(tier, shapes, info)]
+    jobs += [guarded(j, what) for j, what in compose.jobs(tier, shapes, info)]
     vcs = []
     for r in [j() for j in jobs]:
         vcs += r
